@@ -317,4 +317,5 @@ package protocol
 //@   ensures 0 <= result0 && result0 <= len(b) && result1 == nil
 //@   ensures off + int64(len(b)) <= pages[0].offset + int64(len(pages) - 1) * 65536 + int64(pages[len(pages)-1].length) ==> result0 == len(b)
 //@   ensures forall k :: 0 <= k && k < result0 ==> b[k] == pgbyte(pages, off + int64(k))
+//@   option timeout 240
 //@   loop 0 unroll 3
